@@ -6,6 +6,7 @@ branch points.  This keeps the interpreter a plain (non-forking) AST evaluator.
 """
 from __future__ import annotations
 
+import os
 import time
 
 import z3
@@ -13,7 +14,8 @@ import z3
 from .values import DictCell, MapCell, ObjCell, Ref, SeqCell, Unsupported
 
 FEAS_RLIMIT = 2_000_000
-GOAL_RLIMIT = 40_000_000
+STATS = {'feas_s': 0.0, 'feas_n': 0}
+GOAL_RLIMIT = 6_000_000
 
 
 class PathEnd(Exception):
@@ -62,6 +64,7 @@ class Explorer:
         self.solver_seconds = 0.0
         self.inputs: dict = {}  # name -> description of symbolic inputs (for counterexamples)
         self.notes: list[str] = []
+        self.feas_cache: dict = {}
 
     def run(self, thunk):
         """thunk(path) executes one path.  Returns when all paths are explored."""
@@ -97,10 +100,46 @@ class Explorer:
                 self.solver_seconds += ob.seconds
 
 
+_QCACHE: dict = {}
+_BG = []
+
+
+def BACKGROUND():
+    if not _BG:
+        from .values import background_axioms
+        _BG.extend(background_axioms())
+    return _BG
+
+
+
+def _has_quantifier(e):
+    i = e.get_id()
+    r = _QCACHE.get(i)
+    if r is None:
+        r = (False, e)
+        seen = set()
+        stack = [e]
+        while stack:
+            x = stack.pop()
+            if z3.is_quantifier(x) and not x.is_lambda():
+                r = (True, e)
+                break
+            if z3.is_quantifier(x):
+                stack.append(x.body())
+                continue
+            xi = x.get_id()
+            if xi in seen:
+                continue
+            seen.add(xi)
+            stack.extend(x.children())
+        _QCACHE[i] = r
+    return r[0]
+
+
 def _mk_solver(rlimit):
     s = z3.Solver()
     s.set("rlimit", rlimit)
-    s.set("timeout", 120_000)
+    s.set("timeout", 60_000)
     return s
 
 
@@ -111,8 +150,13 @@ def solve_obligation(ob: Obligation, rlimit, model_vars):
         ob.verdict, ob.solver = "discharged", "trivial"
         return
     verdict = "undecided"
-    for attempt, (mk, rl) in enumerate(((_mk_solver, rlimit), (_mk_solver, rlimit * 8))):
+    attempts = ((_mk_solver, rlimit), (_mk_solver, rlimit * 8))
+    if ob.kind == "canary":  # only "unsat" (vacuous path condition) matters; a model is a bonus
+        attempts = ((_mk_solver, 400_000),)
+    for attempt, (mk, rl) in enumerate(attempts):
         s = mk(rl)
+        for h in BACKGROUND():
+            s.add(h)
         for h in ob.hyps:
             s.add(h)
         s.add(z3.Not(goal))
@@ -136,6 +180,8 @@ def solve_obligation(ob: Obligation, rlimit, model_vars):
         ob.reason = f"z3 unknown: {s.reason_unknown()}"
     ob.verdict = verdict
     ob.seconds = time.time() - t0
+    if os.environ.get("VERIF_DEBUG"):
+        print(f"   [solve] {ob.name} -> {verdict} {ob.seconds:.2f}s {ob.reason}", flush=True)
 
 
 def extract_model(model, model_vars, cap=70000):
@@ -187,6 +233,7 @@ class Path:
         self.pos = 0
         self.trace: list[bool] = []
         self.pc: list = []
+        self.pc_keys: list = []
         self.solver = z3.Solver()
         self.solver.set("rlimit", FEAS_RLIMIT)
         self.heap: dict[int, object] = {}
@@ -213,6 +260,10 @@ class Path:
     def snapshot_heap(self):
         return {a: c.copy() for a, c in self.heap.items()}
 
+    def truncate(self, n):
+        del self.pc[n:]
+        del self.pc_keys[n:]
+
     # ---- path condition
     def assume(self, cond):
         if isinstance(cond, bool):
@@ -222,14 +273,35 @@ class Path:
         if z3.is_true(cond):
             return
         self.pc.append(cond)
-        self.solver.add(cond)
+        self.pc_keys.append(hash((self.pc_keys[-1] if self.pc_keys else 0, cond.get_id())))
+        if not _has_quantifier(cond):
+            # feasibility checks use the quantifier-free part of the path condition only: a weaker hypothesis
+            # set can only make more branches look feasible, never prune a real one (sound, see DESIGN 2.3)
+            self.solver.add(cond)
 
     def _check(self, cond):
-        self.solver.push()
-        self.solver.add(cond)
-        r = self.solver.check()
-        self.solver.pop()
-        return r != z3.unsat  # unknown counts as feasible (sound: never prunes a real path)
+        t0 = time.time()
+        try:
+            return self._check0(cond)
+        finally:
+            STATS["feas_s"] += time.time() - t0
+            STATS["feas_n"] += 1
+
+    def _check0(self, cond):
+        key = (self.pc_keys[-1] if self.pc_keys else 0, cond.get_id())
+        cache = self.ex.feas_cache
+        if key in cache:
+            return cache[key][0]
+        if _has_quantifier(cond):
+            r = z3.unknown
+        else:
+            self.solver.push()
+            self.solver.add(cond)
+            r = self.solver.check()
+            self.solver.pop()
+        ok = r != z3.unsat  # unknown counts as feasible (sound: never prunes a real path)
+        cache[key] = (ok, cond, list(self.pc))  # keep the terms alive so that ids stay unique
+        return ok
 
     def decide(self, cond) -> bool:
         """Branch on a z3 Bool (or Python bool)."""
